@@ -206,6 +206,8 @@ pub struct Agg {
     pub digest_sum: u64,
     pub known_hits: BTreeMap<usize, (u64, u64, String)>, // entry -> (count, lowest run, detail of lowest)
     pub unlisted: u64,
+    /// failures that vanished when the same trace was executed again immediately
+    pub history_dependent: u64,
     pub first_unlisted: Option<(u64, usize)>, // (run index, failure index within run)
     pub unlisted_list: BTreeSet<(u64, usize)>, // the smallest few, in case the first does not reproduce in isolation
     pub per_run_digests: Vec<(u64, u64)>,
@@ -270,6 +272,7 @@ impl Agg {
             }
         }
         self.unlisted += o.unlisted;
+        self.history_dependent += o.history_dependent;
         self.first_unlisted = match (self.first_unlisted, o.first_unlisted) {
             (Some(a), Some(b)) => Some(a.min(b)),
             (a, b) => a.or(b),
@@ -513,6 +516,18 @@ pub fn run_check<P: Property>(p: &P, st: &Settings) -> i32 {
                                     "executions": obs.execs, "steps": obs.steps, "failures": fails.len()});
                                 samples.lock().unwrap().insert(run, v);
                             }
+                            // An unlisted failure must reproduce when the same trace is executed again at once; if it does
+                            // not, it depended on what this thread executed before (state carried across operations by the
+                            // code under test): it is counted, and the batch goes on looking for a failure that replays.
+                            let mut fails = fails;
+                            if !survey && fails.iter().any(|f| known.classify(id, f).is_none()) {
+                                let mut obs2 = Obs::default();
+                                let again = catch(|| p.execute(&trace, &mut obs2)).unwrap_or_default();
+                                if !again.iter().any(|f| known.classify(id, f).is_none()) {
+                                    agg.history_dependent += fails.iter().filter(|f| known.classify(id, f).is_none()).count() as u64;
+                                    fails.retain(|f| known.classify(id, f).is_some());
+                                }
+                            }
                             for (fi, f) in fails.iter().enumerate() {
                                 match known.classify(id, f) {
                                     Some(k) => {
@@ -645,6 +660,14 @@ pub fn run_check<P: Property>(p: &P, st: &Settings) -> i32 {
     }
     for (k, (c, r, d)) in &agg.known_hits {
         println!("  known finding {} hit {} times in this batch (first at run {}: {})", known.entries[*k].id, c, r, d);
+    }
+
+    if agg.history_dependent > 0 {
+        println!("note: {} failure(s) did not recur when their trace was executed again at once: the outcome depended on what the thread had executed before (state carried across operations)", agg.history_dependent);
+        if exit == 0 {
+            eprintln!("HARNESS-ERROR: only history-dependent failures were observed; no replayable violation can be reported, and the tree cannot be called clean");
+            return 2;
+        }
     }
 
     // 5. reach self-check (harness quality, not a verdict). Only meaningful on a full batch.
